@@ -272,6 +272,38 @@ def r1_aliasing(ck, P):
                 ck.ok(R, '%s/%s: alias with operand %d paired with the rectangle count of operand %d' % (u.name, op.name, k, k))
             else:
                 ck.violation(R, op.name, 'alias test paired with a rectangle count (%s)' % _w(u), 'the test "result is operand %d" is combined with a count taken from %s: when operand %d has several rectangles and the other has one, the result overwrites rectangles that are still being read' % (k, sorted(r[1] for r in rts) or 'no operand', k), t.loc())
+        # the same pairing by partial evaluation (the alias tests may share one count conjunct): when the result is operand k and nothing
+        # but "operand k has two rectangles" is known, the sweep cannot get past the point where the old rectangles are set aside
+        succs = list(op.blocks[x.bb.id].succ)
+        if len(succs) == 1:
+            J = succs[0]
+            for k in (1, 2):
+                kv = {}
+                for c in op.insts():
+                    if c.op != 'icmp':
+                        continue
+                    cs = [o for o in c.a if o[0] == 'c']; vs = [o for o in c.a if o[0] == 'v']
+                    if len(cs) == 1 and len(vs) == 1 and int(cs[0][1]) in (0, 1, 2):
+                        y = op.v(vs[0])
+                        if y is not None and y.ty in ('i32', 'i64') and {r for r in common.value_arg_roots(op, vs[0]) if r[0] == 'arg'} == {('arg', k)} and not common.value_arg_roots(op, vs[0]) - {('arg', k)}:
+                            kv[y.i] = 2
+                def known(c, k=k, kv=kv):
+                    if c.i in kv:
+                        return kv[c.i]
+                    if c.op == 'icmp' and c.pred in ('eq', 'ne'):
+                        s_ = {tuple(op.strip_casts(o)) for o in c.a}
+                        if ('a', 0) in s_ and len(s_) == 2:
+                            o2 = [o for o in s_ if o != ('a', 0)][0]
+                            if o2[0] == 'a' and o2[1] in (1, 2):
+                                eq = (o2[1] == k)
+                                return int(eq if c.pred == 'eq' else not eq)
+                    return None
+                hit = common.reach_under(op, known, {J}, avoid={x.bb.id})
+                where = '%s/%s: result is operand %d with two rectangles' % (u.name, op.name, k)
+                if J in hit:
+                    ck.violation(R, op.name, 'old rectangles not set aside when the result is operand %d (%s)' % (k, _w(u)), 'when the result region is operand %d and that operand has more than one rectangle (nothing being known about the other operand), the sweep can reach the point after the save (%s) without having set the old rectangle array aside: the rectangles are overwritten, or reallocated, while they are still being read' % (k, x.loc()), x.loc())
+                else:
+                    ck.ok(R, where, 'old rectangles always set aside')
         # old data freed on all exits
         phis = [y for y in op.insts() if y.op == 'phi' and y.dv == 'old_data' or (y.op == 'phi' and any(op.v(a) is not None and op.v(a).op == 'load' and op.last_field(op.path(op.v(a).a[0])) == _reg(u) + '.data' and op.root(op.path(op.v(a).a[0])) == ('arg', 0) for a in y.a) and any(a[0] == 'n' for a in y.a))]
         if not phis:
